@@ -134,7 +134,7 @@ def gen_layered(rng):
         nonlocal n
         nid = f'N{n}'
         n += 1
-        node = {'id': nid, 'mode': rng.choice(gen.MODES), 'params': [], 'kind': 'plain', 'plan': {}}
+        node = {'id': nid, 'mode': rng.choice(gen.ALL_MODES), 'params': [], 'kind': 'plain', 'plan': {}}
         node.update(kw)
         nodes[nid] = node
         order.append(nid)
@@ -221,7 +221,7 @@ def _level(prog, built, case):
                                            inflight=inflight, level=level))
     built.fresh(events=False)
     obs = harness.execute(built, [('r0', case['runs'][0][1])], ctl, on_quiescent=on_q)
-    fs = monitors.check_termination(obs) + findings
+    fs = monitors.check_termination(obs) + findings + monitors.check_dispatch(obs, prog)[0]
     stats = {'steps': obs.steps, 'choice_points': obs.choice_points, 'levels_audited': audited['n'],
              'max_width_held': audited['maxwidth']}
     return {'findings': fs, 'stats': stats, 'refs': {}}
